@@ -14,7 +14,8 @@ PROP = "C12"
 
 def plan(tier, seed):
     k = 80 if tier == "quick" else 2000
-    return [{"seed": seed, "shard": i, "n": 120} for i in range(k)]
+    return [{"seed": seed, "shard": i, "n": 120} for i in range(k)] + \
+        [{"kind": "year_views", "seed": seed, "shard": i, "n": 60} for i in range(k // 5)]
 
 
 def gen_suffix(rng, prefix, gap):
@@ -101,7 +102,84 @@ def compare(prefix, suffix, start, oa, ob, cnt):
     return v
 
 
+def judge_year_views(prefix, suffix, start, views, cnt):
+    """views: {Y: (obs of prefix --year Y, obs of prefix+suffix --year Y)} under the embedded exemption table.
+    A tax year that ended before the continuation starts is final in its year-restricted view too: if the view of the
+    shorter ledger was produced, the view of the grown ledger must be produced and show the same year - whatever tax years
+    the continuation reaches (including years the embedded table does not cover)."""
+    v = []
+    for Y, (oa, ob) in views.items():
+        if "panic" in oa or "panic" in ob or "ok" not in oa:
+            cnt["year_views_not_produced_for_prefix(skipped)"] += 1
+            continue
+        cnt["closed_year_views_compared"] += 1
+        if "ok" not in ob:
+            msg = ob.get("err", {}).get("message", str(ob))
+            import re
+            dates = [pdate(x) for x in re.findall(r"\d{4}-\d{2}-\d{2}", msg)]
+            if dates and all(x >= start for x in dates):
+                cnt["year_view_rejected_for_a_failing_continuation"] += 1   # the continuation itself fails (e.g. oversell)
+                continue
+            v.append({"clause": "year-view-rejected-after-extension", "signature": "year-view-rejected-after-extension",
+                      "detail": f"--year {Y} was produced for the shorter ledger; after appending lines from {start} on: {msg[:160]}"})
+            continue
+        A, B = lc.parse_report(oa["ok"]["report"]), lc.parse_report(ob["ok"]["report"])
+        ya = next((y for y in A["years"] if y["start_year"] == Y), None)
+        yb = next((y for y in B["years"] if y["start_year"] == Y), None)
+        if (ya is None) != (yb is None):
+            v.append({"clause": "earlier-figures-changed", "signature": "earlier-year-view-changed",
+                      "detail": f"--year {Y}: year present {ya is not None} -> {yb is not None}"})
+            continue
+        if ya is None:
+            continue
+        diffs = lc.compare_reports({"years": [ya], "holdings": {}}, {"years": [yb], "holdings": {}}, exact=True,
+                                   what=("years",), label=("shorter", "grown"))
+        if diffs:
+            v.append({"clause": "earlier-figures-changed", "signature": "earlier-year-view-changed",
+                      "detail": f"--year {Y}: " + "; ".join(diffs[:3])})
+    return v
+
+
+def run_year_views(desc):
+    rng = rng_for(PROP, desc["seed"], "year_views", desc["shard"])
+    cnt, viols, hashes, samples = Counter(), [], set(), []
+    reqs, meta = [], []
+    for _ in range(desc["n"]):
+        lo = rng.choice([2015, 2017, 2019, 2021])
+        prefix, _f = gen_ledger(rng, Opts(capital=False, splits=rng.random() < 0.4, n_sec=(1, 2), steps=(4, 10),
+                                           start=(dt.date(lo, 1, 1), dt.date(lo + 1, 6, 1)), last_date=dt.date(2024, 3, 1)))
+        gap = rng.choice([31, 60, 400, 1500, 2500, 2500, 3500])
+        suffix, start, hostile = gen_suffix(rng, prefix, gap)
+        if not suffix:
+            continue
+        closed = sorted({tax_year_of(pdate(t["date"])) for t in prefix if tax_year_of(pdate(t["date"])) < tax_year_of(start)})
+        if not closed:
+            continue
+        ys = closed if len(closed) <= 3 else sorted(rng.sample(closed, 3))
+        ext = prefix + suffix
+        if any(tax_year_of(pdate(t["date"])) > 2025 for t in suffix):
+            cnt["continuations_reaching_beyond_the_embedded_table"] += 1
+        for Y in ys:
+            reqs += [lc.calc_case(prefix, year=Y, exemptions="embedded"), lc.calc_case(ext, year=Y, exemptions="embedded")]
+        meta.append((prefix, suffix, start, ys))
+    obs = probe().run(reqs)
+    k = 0
+    for prefix, suffix, start, ys in meta:
+        views = {}
+        for Y in ys:
+            views[Y] = (obs[k], obs[k + 1])
+            k += 2
+        vs = judge_year_views(prefix, suffix, start, views, cnt)
+        hashes.add(sha([prefix, suffix])[:16])
+        for x in vs:
+            x["case"] = {"op": "year_views", "txs": prefix, "suffix": suffix, "start": iso(start), "years": ys}
+            viols.append(x)
+    return {"evaluations": len(reqs), "nontrivial_hashes": hashes, "counters": cnt, "violations": cap_viols(viols), "samples": samples}
+
+
 def run_shard(desc):
+    if desc.get("kind") == "year_views":
+        return run_year_views(desc)
     rng = rng_for(PROP, desc["seed"], desc["shard"])
     cnt = Counter()
     viols = []
@@ -138,6 +216,14 @@ def run_shard(desc):
 
 
 def replay(case):
+    if case.get("op") == "year_views":
+        prefix, suffix, ys = case["txs"], case["suffix"], case["years"]
+        reqs = []
+        for Y in ys:
+            reqs += [lc.calc_case(prefix, year=Y, exemptions="embedded"), lc.calc_case(prefix + suffix, year=Y, exemptions="embedded")]
+        obs = probe().run(reqs)
+        views = {Y: (obs[2 * i], obs[2 * i + 1]) for i, Y in enumerate(ys)}
+        return judge_year_views(prefix, suffix, pdate(case["start"]), views, Counter()), {}
     prefix, suffix = case["txs"], case["suffix"]
     # (minimiser) keep the >30-day separation
     if prefix and suffix and (min(pdate(t["date"]) for t in suffix) - max(pdate(t["date"]) for t in prefix)).days <= 30:
@@ -146,7 +232,7 @@ def replay(case):
     return compare(prefix, suffix, pdate(case["start"]), oa, ob, Counter()), {"prefix": oa, "extended": ob}
 
 
-THRESHOLDS = {"prefix_disposals_compared": 10000, "closed_years_compared": 2000, "suffix_gap_31": 800,
+THRESHOLDS = {"closed_year_views_compared": 1000, "continuations_reaching_beyond_the_embedded_table": 60, "prefix_disposals_compared": 10000, "closed_years_compared": 2000, "suffix_gap_31": 800,
               "suffixes_that_fail_themselves": 100}
 RULE = ("accepted prefix ledgers x well-formed continuations (buys, sells, splits, dividends in the same and new "
         "securities, some failing by themselves) whose first date is 31 (boundary), 32, 35, 60 or 400 days after the "
